@@ -39,6 +39,7 @@ def run_trace(tid, cfg, inputs, seed):
             raise Machinery("could not establish communication")
         t3 = h.settings.timeouts.t3
         ce_ready = [False]
+        pend = {"sys": None, "done": None, "obs": None}      # operator's switch-online call waiting for its probe answer
 
         def request(sfn, fn, body=b""):
             sysid = ep.fresh_sys()
@@ -62,6 +63,7 @@ def run_trace(tid, cfg, inputs, seed):
                     acted = True
                 elif f["s"] == 1 and f["f"] == 1:
                     obs["probe"] = True
+                    pend["sys"] = f["system"]
                     if probe == "ok":
                         ep.link.feed(hsmsrun.data_frame(1, 2, False, f["system"], e5.encode(e5.L())))
                         acted = True
@@ -100,6 +102,39 @@ def run_trace(tid, cfg, inputs, seed):
                 ok, why = s.run_until(lambda: done["v"], max_dt=t3 + 10)
                 if not ok:
                     raise Machinery(f"operator call did not return: {why}")
+            elif k == "OpOnlineBegin":
+                done = {"v": False}
+
+                def opb(done=done, obs=obs):
+                    try:
+                        h.control_switch_online()
+                    except Exception as exc:  # noqa: BLE001
+                        pend["raised"] = type(exc).__name__
+                    done["v"] = True
+
+                pend.update({"sys": None, "done": done, "raised": None})
+                th = simrt.Thread(target=opb, name="operator")
+                th.start()
+                s.settle()
+                drain(obs, None, None)
+                if done["v"]:
+                    obs["raised"] = pend["raised"] is not None       # refused at once (not EQUIPMENT_OFFLINE)
+                elif pend["sys"] is None:
+                    raise Machinery("switch-online call pending without a probe")
+            elif k == "ProbeResult":
+                if pend["done"] is None or pend["done"]["v"] or pend["sys"] is None:
+                    raise Machinery("ProbeResult without a pending probe")
+                if inp["probe"] == "ok":
+                    ep.link.feed(hsmsrun.data_frame(1, 2, False, pend["sys"], e5.encode(e5.L())))
+                elif inp["probe"] == "abort":
+                    ep.link.feed(hsmsrun.data_frame(1, 0, False, pend["sys"]))
+                s.settle()
+                ok, why = s.run_until(lambda: pend["done"]["v"], max_dt=t3 + 10)
+                if not ok:
+                    raise Machinery(f"operator call did not return: {why}")
+                if pend["raised"]:
+                    obs["raised"] = True
+                    obs["exc"] = pend["raised"]
             elif k == "S1F15":
                 sysid = request(1, 15)
             elif k == "S1F17":
@@ -147,7 +182,8 @@ def run_trace(tid, cfg, inputs, seed):
 def run(ctx: Ctx):
     wd = workdir(PID)
     cfg = ("SPECIFICATION Spec\nVIEW View\nACTION_CONSTRAINT Dump\nINVARIANT TypeOK\nINVARIANT SvMatches\nINVARIANT SubRemembered\n"
-           "PROPERTY CeOnlyOnTransition\nPROPERTY OnlineOnlyViaProbeOrHost\nPROPERTY RefusedChangesNothing\n")
+           "PROPERTY CeOnlyOnTransition\nPROPERTY OnlineOnlyViaProbeOrHost\nPROPERTY RefusedChangesNothing\n"
+           "PROPERTY AttemptOnlyEndsByProbe\nPROPERTY AttemptRefusesHost\n")
     r = tlc.run("E30Control", cfg_text=cfg, workdir=wd, workers=1, what="gen", timeout=900)
     tlc.require_ok(r, "E30Control")
     ctx.add_tlc(r, "E30 control monitor: 8 configurations x all histories; invariants + action properties")
